@@ -188,6 +188,10 @@ def run(ctx, chk):
         chk.cfg = cfg.name
         # (e) derived Kmer == Kmer is content-only only for canonical storage: import C09's canonical-form rows
         core.import_rows(chk, cfg, "C09", "props.C09", ("I-canon", "R24", "G22", "R18", "R19", "R20", "I-width2", "R23", "S-rev/kmer"))
+        # (f) "equal to its own displayed text and to no other sequence's": the comparison with text decodes each byte with
+        # try_from_ascii and the text is produced with to_char, so the clause needs to_char injective and try_from_ascii its inverse
+        # on every symbol of every codec (C01's table rows) and Display = the per-symbol to_char string (C01 S-display)
+        core.import_rows(chk, cfg, "C01", "props.C01", ("T-inj-char", "T-rt-char", "S-display"))
     chk.floor("eq impls over all configurations", neq, 17 * len(chk.configs))
     chk.floor("hash impls over all configurations", nhash, 3 * len(chk.configs))
 
